@@ -8,7 +8,7 @@ def S(name, nq, nt, **kw):
 PROPS = {
     "C05": {
         "module": "ZenonVerif.Props.C05",
-        "streams": [S("election", 2000, 200000), S("ticker", 4000, 400000), S("mverify", 40, 400)],
+        "streams": [S("election", 2000, 40000), S("ticker", 4000, 400000), S("mverify", 40, 300)],
         "rule": "election stream: delegation sets of 1..60 pillars (names: numbered / case variants / prefixes of one "
                 "another / arbitrary bytes / realistic; weights: all equal / all zero / few values / ZNN amounts / >64 bit "
                 "/ one heavy / distinct) x heights (small, uniform uint64, 2^63 and 2^64 boundaries) x (NodeCount,RandCount) "
